@@ -413,6 +413,21 @@ fn configs(thorough: bool) -> Vec<Cfg> {
             }
         }
     }
+    // small content-encoded objects cut into blocks so small that the last block(s) hold nothing but the
+    // encoding's trailer (gzip: 8 bytes, zlib: 4): the content is complete before the last block is written,
+    // the Content-MD5 must be checked all the same (stored deflate blocks, so that a flipped payload byte
+    // still inflates to content of the right length)
+    for cenc in [1u8, 2, 3] {
+        for (e, b) in [(8u16, 1u16), (4, 1), (4, 2)] {
+            for len in if thorough { vec![3usize, 5, 8, 11, 13] } else { vec![5usize, 11] } {
+                for incompressible in [true, false] {
+                    let mut x = c(Scheme::NoCode, e, b, 0, len, cenc, true, 1, false, 1);
+                    x.incompressible = incompressible;
+                    v.push(x);
+                }
+            }
+        }
+    }
     if thorough {
         v.extend([
             c(Scheme::Rs28, 4, 3, 1, 23, 0, true, 1, false, 2),
@@ -547,7 +562,7 @@ pub fn run(thorough: bool) -> i32 {
                     }
                 }
                 _ if !cfg.md5 => {}
-                _ if n > 12 => {}
+                _ if n > 24 => {}
                 _ => {
                     // corruption: every object packet x every payload byte x masks, and truncations
                     let all: Vec<usize> = (0..n).collect();
